@@ -658,6 +658,118 @@ def modPath (lhs : Val) (ixs : List Ix) (f : Val → Out (Val × Val)) : Out (Va
       (setAt xs k p.2).map fun xs' => (p.1, .list xs')
     | _, _ => .throw                     -- "can't modify index"
 
+/-! ### the state a write leaves behind, also when it raises
+
+`set_index` / `modify_existing_index` mutate in place, so a write that raises has still done
+whatever it did before the failing step.  The functions below return the state of the written place
+afterwards together with how the write ended.  They mirror the same code as `setIndex` / `modPath`
+(agreement: `setIndexS_agrees` in Theorems/C10State.lean). -/
+
+/-- how a write ended -/
+inductive WEnd where
+  | done      -- no error
+  | failed    -- raised
+  | corrupted -- raised after the string arm of `set_index` had replaced the string by its
+              -- `from_utf8_lossy` repair ("assigning to string result not utf-8 (string corrupted)")
+  deriving Repr, DecidableEq, Inhabited
+
+def WEnd.isDone : WEnd → Bool
+  | .done => true
+  | _ => false
+
+/-- the `for i in lo..hi { set_index(&mut v[i], …)? }` loop: elements are written one after the
+other; the first failure stops the loop and leaves the remaining elements untouched -/
+def mapS (f : Val → Val × WEnd) : List Val → List Val × WEnd
+  | [] => ([], .done)
+  | x :: xs =>
+    let r := f x
+    if r.2.isDone then
+      let rs := mapS f xs
+      (r.1 :: rs.1, rs.2)
+    else (r.1 :: xs, r.2)
+
+/-- the "hack" at the top of `set_index` / `modify_existing_index`: a stream that is indexed into is
+forced into a list first (and stays one, whatever happens next) -/
+def forceHack : Val → Out Val
+  | .stream xs => .ok (.list xs)
+  | .rep _ => .throw
+  | .cyc _ _ => .throw
+  | v => .ok v
+
+/-- eval.rs `set_index`, as (state of `lhs` afterwards, how it ended) -/
+def setIndexS (lhs : Val) (ixs : List Ix) (value : Option Val) (every : Bool) : Val × WEnd :=
+  match ixs with
+  | [] => (value.getD .null, .done)
+  | fi :: rest =>
+    match forceHack lhs with
+    | .ok lhs =>
+      match lhs, fi with
+      | .list xs, .index i =>
+        match (pythonicIndex xs.length i).bind fun k => (elemAt xs k).map fun old => (k, old) with
+        | .ok (k, old) =>
+          let r := setIndexS old rest value every
+          (.list (xs.set k.toNat r.1), r.2)
+        | _ => (.list xs, .failed)
+      | .list xs, .slice lo hi =>
+        if every then
+          match (pythonicSliceObj xs.length lo hi).bind fun p =>
+              (subRange xs p.1 p.2).map fun mid => (p, mid) with
+          | .ok (p, mid) =>
+            let r := mapS (fun e => setIndexS e rest value true) mid
+            (.list (xs.take p.1.toNat ++ r.1 ++ xs.drop p.2.toNat), r.2)
+          | _ => (.list xs, .failed)
+        else (.list xs, .failed)
+      | .str bs, .index i =>
+        -- a leaf: no recursion; only the UTF-8 failure happens after the string was taken apart
+        match setIndex (.str bs) (.index i :: rest) value every with
+        | .ok v => (v, .done)
+        | _ =>
+          match rest, value with
+          | [], some (.str [b]) =>
+            match (pythonicIndex bs.length i).bind fun k => setAt bs k b with
+            | .ok _ => (.str bs, .corrupted)    -- state: String::from_utf8_lossy of the bytes (not modelled)
+            | _ => (.str bs, .failed)
+          | _, _ => (.str bs, .failed)
+      | v, fi =>
+        -- the other leaves (vector, bytes) write last, after every check; everything else raises
+        match setIndex v (fi :: rest) value every with
+        | .ok v' => (v', .done)
+        | _ => (v, .failed)
+    | _ => (lhs, .failed)
+
+/-- eval.rs `modify_existing_index`, as (state afterwards, result if it did not raise) -/
+def modPathS (lhs : Val) (ixs : List Ix) (f : Val → Out (Val × Val)) : Val × Option Val :=
+  match ixs with
+  | [] =>
+    match f lhs with
+    | .ok p => (p.2, some p.1)
+    | _ => (lhs, none)
+  | fi :: rest =>
+    match forceHack lhs with
+    | .ok lhs =>
+      match lhs, fi with
+      | .list xs, .index i =>
+        match (pythonicIndex xs.length i).bind fun k => (elemAt xs k).map fun old => (k, old) with
+        | .ok (k, old) =>
+          let r := modPathS old rest f
+          (.list (xs.set k.toNat r.1), r.2)
+        | _ => (.list xs, none)
+      | v, _ => (v, none)
+    | _ => (lhs, none)
+
+/-- `x[i] += d`: read through `index`; drop the LHS; combine; write.  Documented exception to
+"a failed write changes nothing": when the operator itself raises, the dropped slot stays null. -/
+def opAssignAddS (lhs : Val) (i : Val) (d : Int) : Val × WEnd :=
+  match index lhs i with
+  | .ok old =>
+    let r1 := setIndexS lhs [.index i] none false
+    if r1.2.isDone then
+      match old with
+      | .int o => setIndexS r1.1 [.index i] (some (.int (o + d))) false
+      | _ => (r1.1, .failed)            -- `+` raised: the slot was already dropped
+    else r1
+  | _ => (lhs, .failed)                 -- the read raised: nothing touched (not even a stream is forced)
+
 /-- lib.rs `|..` on a list: `a |.. [k, v]` -/
 def updateAt (a k v : Val) : Out Val :=
   match a with
